@@ -26,9 +26,12 @@ def gen_case(rng):
             ops.append(["slice", rng.randint(0, 63), rng.randint(3, 63)])
         elif r < 0.75:
             ops.append(["dedrift", rng.choice([0.0, 0.25, -0.25, 0.5])])
-        elif r < 0.82:
+        elif r < 0.80:
             ops.append(["retime", rng.choice([15.0, 161.029, 3600.0, -42.5])])
         elif r < 0.9:
+            # the intensities change after the frame (or its Waterfall) came into being: what is written must be the current data
+            ops.append(["modify", rng.choice(["inplace", "rebind", "signal", "zero"])])
+        elif r < 0.95:
             ops.append(["save", rng.choice(["fil", "h5"])])
         else:
             ops.append(["load", rng.choice(["fil", "h5"])])
@@ -38,7 +41,7 @@ def gen_case(rng):
         # refuses fewer than 3 integrations / channels, so these go through .fil only, with histories that keep the shape.
         c["T"] = rng.choice([1, 1, 2, c["T"]]); c["F"] = rng.choice([1, 2, 8, 33]) if c["T"] <= 2 else rng.choice([1, 2])
         c["formats"] = ["fil"]
-        c["ops"] = [o if o[0] in ("get_waterfall", "copy", "retime") else [o[0], "fil"] for o in ops if o[0] in ("get_waterfall", "copy", "retime", "save", "load")]
+        c["ops"] = [o if o[0] in ("get_waterfall", "copy", "retime", "modify") else [o[0], "fil"] for o in ops if o[0] in ("get_waterfall", "copy", "retime", "modify", "save", "load")]
     return c
 
 
@@ -47,7 +50,7 @@ def model_ops(c, hist):
     out = []
     for op, h in zip(c["ops"], hist):
         k = op[0]
-        if h[0] == "skip" or k == "retime":
+        if h[0] == "skip" or k in ("retime", "modify"):
             continue
         if k == "get_waterfall":
             out.append("GetWaterfall")
@@ -66,7 +69,7 @@ def run(ctx):
     rng = ctx.rng
     quick = ctx.tier == "quick"
     ctx.rule = ("frames 3-8 x 8-64 (and, through .fil only, 1-2 integrations and / or 1-2 channels), realistic (2.79 Hz / 18.25 s / 6 GHz) and integral headers, both orientations; histories of 0-5 operations from "
-                "get_waterfall, copy (continuing with the copy or the original), slice, dedrift, re-timing (t_start assigned, as a cadence does), intermediate save, save-and-reload; then save as "
+                "get_waterfall, copy (continuing with the copy or the original), slice, dedrift, re-timing (t_start assigned, as a cadence does), modification of the intensities (in place, re-bound array, injected signal, zero_data), intermediate save, save-and-reload; then save as "
                 ".fil and .h5 and read back by setigen, blimpy and the waterfall_utils helpers; non-trivial = non-empty history; distinct = distinct case")
     ctx.assumptions = ["blimpy 2.1.4 / h5py are the modelled environment; blimpy needs >= 3 integrations and channels for .h5",
                        "intensities are compared as float32; frequency axes to 1e-9 relative (MHz <-> Hz scaling); start times to 1e-3 s (astropy MJD conversion)"]
